@@ -48,6 +48,11 @@ ASSUMPTIONS = [
     "no compound-unit definitions are active (q.clear_unit_definitions())",
     "exponents are compared numerically (Python holds int or float; the model computes exact rationals)",
     "wf sentences: no bare symbol immediately followed by a factor that starts with a letter (the two would read as one symbol)",
+    "time to reject is not part of the property: the validity regular expression backtracks exponentially in the lengths of the "
+    "letter / digit runs of an INVALID string (observed: 369 s for a 70-character corruption); generated inputs that may be "
+    "invalid are kept below 2**14 backtracking paths by shortening their symbols (unitlang.tame)",
+    "a string is judged the same however often and after whatever it is offered (sessions in one fresh interpreter), and by "
+    "every public entry point (constructors, unit setters of quantities, arrays and data sets, define_unit)",
 ]
 
 
